@@ -1,7 +1,8 @@
 """C11 - threshold labelling yields exactly the connected components.
 
 specs: Dset.tla, ConnPix.tla (dense raster scan + its option arguments), SparseCP.tla (sparse walk + splat + the argument
-       handling of sparseframe.sparse_connected_pixels), TraceCC.tla (certificates).
+       handling of sparseframe.sparse_connected_pixels), LabelSeries.tla (one labelimage object over a series of frames),
+       TraceCC.tla (certificates).
 Mode A: every image TLC enumerates is run through the real kernels and Python wrappers; labels must equal the
         model's labels element for element (normal build and ASan/UBSan build).  The enumeration carries the option
         arguments of the calls: ConnPix = images x con8 {0, 1} x verbose {0, 1, 2} (passed as they are, by position /
@@ -10,6 +11,13 @@ Mode A: every image TLC enumerates is run through the real kernels and Python wr
         number, a number below, a number above - listed pixels on both sides of both numbers} x array names {default,
         lima_segmenter's}; the expectation is always the labelling under the threshold REQUESTED (None = the recorded
         cut, the documented default).  The cases of the kernels' own enumeration rotate through the same 26 classes.
+        The labelimage wrapper is entered through labelpeaks AND through peaksearch for every case (label buffer = POISON).
+        SERIES (LabelSeries.tla): TLC enumerates every series of L frames on ONE labelimage object - frames over a few
+        thresholded images (one fixed, the others drawn with VERIF_SEED) and the three frames with NOTHING above the
+        threshold (all below / all equal to it / all exactly 0) at every position - driven as the scripts do (peaksearch,
+        mergelast per frame), by peaksearch only, by labelpeaks only (L = 5) and by any mixture of the three calls (L = 4);
+        each behaviour is replayed on one real object, blim and npk compared with the specification's labels after EVERY
+        labelling call (a third of them also on the sanitizer build).
 Mode C: large / adversarial images are labelled by the real kernels, the recorder adds a spanning forest and
         TLC validates the certificate against TraceCC (which decides "strictly above" itself, on the exact integer
         keys of the float32 values and of the float32 threshold).  Families (counted in the evidence notes):
@@ -26,7 +34,13 @@ Mode C: large / adversarial images are labelled by the real kernels, the recorde
           verbose = 0 array), sparseframe.sparse_connected_pixels through its 26 argument classes (recorded cut placed
           among the image's own values), SparseScan.cplabel(threshold, countall) on multi-frame scan files made of the
           certificate images (empty and all-background frames between them; threshold 0 also by leaving the argument
-          to its default).
+          to its default);
+        * series on one labelimage object per shape (series_routes): the 8-connected certificate images of the shape as
+          frames, a frame without a pixel above the threshold (all below / all equal / all zero) inserted at every
+          position (and twice in a row), driven with mergelast after every frame / by peaksearch only / by labelpeaks
+          only; after every call blim / npk must be the connectedpixels array of that frame (certified by TraceCC), for
+          the inserted frames the all-zero array and 0 (on shapes up to 64x64 the wrapper's own array of such a frame,
+          taken after >= 2 labelled frames, gets a TraceCC certificate of its own).
         NaN pixels: the statement is silent; what the kernels do is recorded under notes["observations"] only.
 """
 import os, sys, json, subprocess, time, io, contextlib, collections
@@ -41,6 +55,119 @@ ALL_T = '{"none", "zero", "neg", "pos"}'            # SparseCP.tla: classes of t
 ALL_R = '{"absent", "same", "below", "above"}'      # ... of the cut recorded in the frame's meta data
 ALL_N = '{"default", "named"}'                      # ... of its label_name / data_name arguments
 NWRAP = 26                                          # |{(targ, rec, names)}|: (1 + 3 * 4) * 2
+WORKERS = int(os.environ.get("C11_TLC_WORKERS", "16"))      # TLC worker threads (a loaded / small box: C11_TLC_WORKERS=4)
+EKINDS = '{"below", "equal", "zero"}'               # LabelSeries.tla: the frames without a pixel above the threshold
+SERIES_INV = ["TypeOK", "Fresh", "Emit"]
+
+
+def series_cfg(ns, nf, codes, L, modes, skip=False, emit=True, name=""):
+    """LabelSeries.tla: codes = the thresholded images of the frames as binary numbers (0 = nothing above)"""
+    return common.write_cfg(os.path.join(common.scratch(), "labelseries_%dx%d_L%d%s.cfg" % (ns, nf, L, name)),
+                            constants={"NS": ns, "NF": nf, "CODES": "{%s}" % ", ".join(str(c) for c in sorted(codes)),
+                                       "EKINDS": EKINDS, "L": L, "MODES": modes, "SKIP_EMPTY": skip, "EmitOn": emit},
+                            invariants=SERIES_INV)
+
+
+def series_codes(ns, nf, count, rng):
+    """0 (nothing above), a fixed image with two blobs (pixels 0 and 2 of the first row) and count - 1 images drawn with the
+    seed (at least one with a pixel in the last row, none repeated)"""
+    n = ns * nf
+    codes = [0, 5]
+    while len(codes) < count + 1:
+        c = int(rng.integers(1, 2 ** n))
+        if c in codes or (len(codes) == 2 and c < 2 ** (n - nf)):
+            continue
+        codes.append(c)
+    return codes
+
+
+def series_model_runs(chk, tier, mods):
+    """TLC enumerates the series (LabelSeries.tla); every behaviour is replayed on one real labelimage object.
+    Returns the behaviours (for the sanitizer subset)."""
+    rng = np.random.default_rng(common.seed() + 5150)
+    ns, nf = 2, 3
+    three, free = '{"scripts", "search", "label"}', '{"free"}'
+    if tier == "quick":
+        plan = [((ns, nf), series_codes(ns, nf, 2, rng), 5, three, 3), ((ns, nf), series_codes(ns, nf, 2, rng), 4, free, 1)]
+    else:
+        plan = [((ns, nf), series_codes(ns, nf, 3, rng), 6, three, 3), ((ns, nf), series_codes(ns, nf, 2, rng), 5, free, 1),
+                ((3, 3), series_codes(3, 3, 2, rng), 5, three, 3)]
+    behs = []
+    for sh, codes, L, modes, nmodes in plan:
+        F = len(codes) + 2                             # frames: 3 kinds of code 0, one per other code
+        res = common.run_tlc("LabelSeries", series_cfg(sh[0], sh[1], codes, L, modes, name="_" + str(nmodes)), workers=WORKERS,
+                             timeout=1500, coverage=(tier != "quick" and L <= 5))
+        chk.add_tlc("LabelSeries %dx%d images %s, %d frames, %s" % (sh[0], sh[1], sorted(codes), L, modes), res,
+                    require_cover=(("Search", "Label", "Merge") if res.coverage and modes == free else ()))
+        if res.violated:
+            handle_model_violation(chk, "LabelSeries", res)
+        want = 3 * F ** L if modes == three else 2 * F * (3 * F) ** (L - 1)
+        got, bad = [], 0
+        for line in res.printed:
+            try:
+                got.append(json.loads(line))
+            except ValueError:
+                bad += 1
+        if bad or len(got) != want:
+            raise common.MachineryError("LabelSeries %s L=%d: emitted %d behaviours (%d unparsable), expected %d" % (
+                modes, L, len(got), bad, want))
+        behs += got
+    # vacuity of Fresh: a wrapper that returns early on a frame with nothing above (not the code) must violate it
+    r = common.run_tlc("LabelSeries", series_cfg(2, 3, [0, 5, 30], 3, free, skip=True, emit=False, name="_skip"), workers=WORKERS, timeout=600)
+    chk.add_tlc("LabelSeries SKIP_EMPTY (expected: Fresh violated)", r)
+    if r.violated != ["Fresh"]:
+        raise common.MachineryError("SKIP_EMPTY configuration violates %r, expected Fresh (vacuity)" % (r.violated,))
+    t0 = time.time()
+    st = collections.OrderedDict()
+    nviol = 0
+    cImageD11 = mods[0]
+    before = cImageD11.cimaged11_omp_get_max_threads()
+    try:
+        for idx, b in enumerate(behs):
+            # explicit small teams (1, 2, 3 threads, changing every 1024 behaviours): six-pixel frames, and a loaded box
+            # makes every parallel region of a large team cost milliseconds
+            if before > 0 and idx % 1024 == 0:
+                cImageD11.cimaged11_omp_set_num_threads(1 + (idx // 1024) % 3)
+            _series_one(chk, b, idx, mods, st, len(behs))
+            if len(chk.violations) > 20:
+                break
+    finally:
+        if before > 0:
+            cImageD11.cimaged11_omp_set_num_threads(before)
+    chk.notes["series_behaviours"] = len(behs)
+    chk.notes["series_empty_frame_positions"] = st
+    chk.notes["series_replay_s"] = round(time.time() - t0, 1)
+    for kind in ("below", "equal", "zero"):
+        for m in ("mergelast in between", "no mergelast"):
+            if not chk.violations and not st.get("%s frame after >= 2 labelled frames, %s" % (kind, m)):
+                raise common.MachineryError("vacuity: no series with a %s frame after two labelled frames (%s)" % (kind, m))
+    return behs
+
+
+def _series_one(chk, b, idx, mods, st, nbeh):
+        nviol = len(chk.violations)
+        try:
+            probs = c11_replay.run_series(b, mods, idx)
+        except Exception as e:
+            probs = ["series on one labelimage object (%s): exception %r" % (b.get("mode"), e)]
+        labelled = [c for c in b["calls"] if c["op"] != "mergelast"]
+        chk.case(("series", b["ns"], b["nf"], b["mode"], tuple((c["op"], c.get("code"), c.get("kind")) for c in b["calls"])),
+                 nontrivial=any(c["n"] >= 1 for c in labelled))
+        chk.traces += 1
+        # vacuity counters: a frame with nothing above after >= 2 frames with blobs (mergelast in between / not)
+        seen, merged = 0, False
+        for c in b["calls"]:
+            if c["op"] == "mergelast":
+                merged = True
+            elif c["code"] != 0:
+                seen += 1
+            elif seen >= 2:
+                k = "%s frame after >= 2 labelled frames, %s" % (c["kind"], "mergelast in between" if merged else "no mergelast")
+                st[k] = st.get(k, 0) + 1
+        if idx == 4321 % max(1, nbeh):
+            chk.sample({"series": b})
+        for pr in probs:
+            chk.violation(pr, dict(b, idx=idx))
 
 
 def dense_cfg(ns, nf, emit=True, rowpar=False, verbs="{0}"):
@@ -570,6 +697,95 @@ def wrapper_routes(chk, mods, job, k, rng, vac):
 WRAP_ROT = {}
 
 
+def empty_frame(shape, kind, rng, q):
+    """(threshold, float32 frame) without a pixel strictly above the threshold; classes checked in exact arithmetic"""
+    if kind == "zero":
+        thr, d = [0.0, 5.0, 0.1][q % 3], np.zeros(shape, np.float32)
+    elif kind == "equal":
+        thr = [0.1, 5.0, -1.0 / 3.0, 0.0][q % 4]
+        d = np.full(shape, np.float32(thr), np.float32)
+    else:
+        thr, d = values_for(np.zeros(shape, bool), ("mid", "ulp", "neg", "huge")[q % 4], rng)
+        d = np.minimum(d, np.nextafter(np.float32(thr), np.float32(-np.inf))).astype(np.float32)
+    v, t = d.astype(np.float64), float(np.float32(thr))
+    if not {"zero": (v == 0).all() and t >= 0, "equal": (v == t).all(), "below": (v < t).all()}[kind]:
+        raise common.MachineryError("empty_frame(%s): not in its class" % kind)
+    return thr, d
+
+
+def series_routes(chk, mods, jobs, rng, vac):
+    """ONE labelimage object per series over the 8-connected certificate images of a shape; a frame with nothing above the
+    threshold inserted at every position (once, and twice in a row); driven as the scripts do (peaksearch + mergelast),
+    by peaksearch only, by labelpeaks only.  After every call blim / npk must be the connectedpixels array / count of
+    that frame (which TraceCC certifies), zeros / 0 for the inserted frames.  Returns certificate records
+    [(name, data, thr, blim copy, npk)] of inserted frames (shapes up to 64x64) for TraceCC."""
+    cImageD11, labelimage, sparseframe = mods
+    groups = collections.OrderedDict()
+    for job in jobs:
+        if job["con8"] and job["n"] >= 1:
+            groups.setdefault(job["im"].shape, []).append(job)
+    certs, q = [], common.seed()
+    for shape, js in groups.items():
+        js = sorted(js, key=lambda j: -j["n"])[:5]
+        if len(js) == 1:
+            js = js * 2
+        zeros = np.zeros(shape, np.int32)
+        for mode in ("scripts", "search", "label"):
+            for pos in range(len(js) + 1):
+                for double in ((False, True) if pos in (2, len(js)) else (False,)):
+                    if len(chk.violations) > 30:
+                        return certs
+                    q += 1
+                    kind = ("below", "equal", "zero")[q % 3]
+                    li = c11_replay.new_labelimage(labelimage, shape, poison=(mode != "scripts" and q % 2 == 0))
+                    frames = list(js)
+                    for r in range(2 if double else 1):
+                        frames.insert(pos, (kind if r == 0 else ("below", "equal", "zero")[(q + 1) % 3]))
+                    before = 0
+                    for k, fr in enumerate(frames):
+                        if isinstance(fr, str):
+                            thr, data = empty_frame(shape, fr, rng, q + k)
+                            exp, nexp, nm = zeros, 0, "a frame with nothing above the threshold (%s)" % fr
+                        else:
+                            thr, data, exp, nexp, nm = fr["thr"], fr["data"], fr["lab"], fr["n"], "image " + fr["name"]
+                        arr = data.astype(np.float64) if (q + k) % 2 else data
+                        try:
+                            if mode == "label":
+                                li.labelpeaks(arr, thr)
+                            else:
+                                li.peaksearch(arr, thr, float(k))
+                            got, ngot = li.blim, int(li.npk)
+                            what = None
+                            if ngot != nexp:
+                                what = "npk = %d, the frame holds %d objects" % (ngot, nexp)
+                            elif got.shape != exp.shape or not np.array_equal(got, exp):
+                                what = "blim differs from the labelling of the frame (%d pixels not above the threshold carry a label)" % (
+                                    int(((got != 0) & (exp == 0)).sum()) if got.shape == exp.shape else -1)
+                            if isinstance(fr, str):
+                                key = "%s frame after %s labelled frames, %s" % (fr, ">= 2" if before >= 2 else str(before),
+                                                                                 "mergelast in between" if mode == "scripts" else mode + " only")
+                                vac.add("series_on_one_labelimage_object", key)
+                                if shape[0] * shape[1] <= 4096 and before >= 2 and (what or len([c for c in certs if c[0][1] == shape]) < 6):
+                                    certs.append((("inserted frame (%s) at position %d, %s" % (fr, k, mode), shape), data, thr, got.copy(), ngot))
+                            else:
+                                before += 1
+                            chk.case(("series", mode, shape, pos, double, k), nontrivial=True)
+                            chk.traces += 1
+                            if what:
+                                chk.violation("series on one labelimage object %dx%d (%s), call %d = %s(%s): %s" % (
+                                    shape[0], shape[1], mode, k + 1, "labelpeaks" if mode == "label" else "peaksearch", nm, what),
+                                    {"big": "series", "shape": list(shape), "mode": mode, "position": pos, "double": double,
+                                     "frames": [f if isinstance(f, str) else f["name"] for f in frames], "seed": common.seed()})
+                                break
+                            if mode == "scripts":
+                                li.mergelast()
+                        except Exception as e:
+                            chk.violation("series on one labelimage object %dx%d (%s), call %d: exception %r" % (
+                                shape[0], shape[1], mode, k + 1, e), {"big": "series", "shape": list(shape), "mode": mode, "seed": common.seed()})
+                            break
+    return certs
+
+
 def thread_sweep(chk, mods, jobs, vac):
     """cImageD11.connectedpixels (its relabel pass is an OpenMP loop over rows, connectedpixels.c:173) under explicit
     thread counts; the labels must be those of the default-thread-count run (which TraceCC judges)"""
@@ -752,6 +968,7 @@ def certificate_cases(chk, tier, mods):
     with c11_replay.swallow_stdout():               # (verbose calls print a banner)
         jobs = large_jobs(chk, tier, mods, rng, vac)
         thread_sweep(chk, mods, jobs, vac)
+        series_certs = series_routes(chk, mods, jobs, rng, vac)
     scan_routes(chk, mods, jobs, vac)
     nan_observation(chk, mods)
     recs = []
@@ -784,6 +1001,14 @@ def certificate_cases(chk, tier, mods):
             for gg in g["growths"]:
                 if gg["unions_after"] > 0:
                     vac.add("kernel_runs_with_unions_after_growth", "growth at call %d" % gg["call"], routes)
+    for (nm, shape), data, thr, blim, npk in series_certs:
+        t32 = np.float32(thr)
+        par, dep = forest(data > t32, blim, 1)
+        cid += 1
+        meta[cid] = (nm, "labelimage (one object over a series)", shape[0], shape[1], 1)
+        recs.append({"id": cid, "ns": shape[0], "nf": shape[1], "con8": 1, "vkey": fkey(data).ravel().tolist(),
+                     "tkey": int(fkey(np.array([t32]))[0]), "labels": blim.ravel().tolist(), "n": int(npk),
+                     "parent": par.ravel().tolist(), "depth": dep.ravel().tolist()})
     chk.notes["growth_images"] = growth
     chk.notes["large_image_families"] = vac.c
     need = [("kernel_runs_with_unions_after_growth", "growth at call %d" % GROW1),
@@ -794,6 +1019,8 @@ def certificate_cases(chk, tier, mods):
             ("sparse_connected_pixels_images(small)", "threshold zero, recorded cut above, named names"),
             ("option_crossing_calls", "connectedpixels con8=0 verbose=1"), ("option_crossing_calls", "connectedpixels con8=0 verbose=2"),
             ("option_crossing_calls", "connectedpixels con8=1 verbose=1"), ("option_crossing_calls", "labelimage.verbose=2")]
+    need += [("series_on_one_labelimage_object", "%s frame after >= 2 labelled frames, %s" % (k, m))
+             for k in ("below", "equal", "zero") for m in ("mergelast in between", "search only", "label only")]
     for fam, key in need:
         if not vac.c.get(fam, {}).get(key):
             if fam == "thread_sweep_calls" and "thread_sweep_calls" not in vac.c:
@@ -847,7 +1074,10 @@ def run(tier, replay=None):
                 "numbers (threshold, values, input dtype, scratch size, Python type of the arguments, frame constructor) "
                 "rotating with the case index; the option arguments are part of the enumeration (ConnPix: con8 x verbose "
                 "0/1/2; SparseCP 'frame': threshold None / 0 / negative / positive x recorded cut absent / same / below / "
-                "above x array names), each case is replayed with exactly its options; large "
+                "above x array names), each case is replayed with exactly its options; the labelimage wrapper is entered "
+                "through labelpeaks and peaksearch; LabelSeries: every series of L frames (frames with nothing above the "
+                "threshold - all below / all equal / all zero - at every position) on ONE labelimage object in the modes "
+                "scripts / search / label / free, blim and npk judged after every labelling call; large "
                 "images: one TraceCC certificate per kernel array, the other call shapes by equality with a certified array; "
                 "non-trivial = at least one above-threshold pixel; distinct = distinct (shape, connectivity, image, source)")
     chk.assumptions = ["the threshold is the float32 number the kernels receive (their parameter type): a caller's 0.1 is "
@@ -886,7 +1116,7 @@ def run(tier, replay=None):
     allcases = []
     for ((ns, nf), verbs) in dshapes:
         nv = verbs.count(",") + 1
-        res = common.run_tlc("ConnPix", dense_cfg(ns, nf, verbs=verbs), workers=16, timeout=3000,
+        res = common.run_tlc("ConnPix", dense_cfg(ns, nf, verbs=verbs), workers=WORKERS, timeout=3000,
                              coverage=(tier != "quick" and ns * nf <= 9))
         chk.add_tlc("ConnPix %dx%d verbose %s" % (ns, nf, verbs), res,
                     require_cover=(("Banner", "FirstPixel", "FirstRow", "RowStart", "RowEnd", "Compress", "Relabel") if res.coverage else ()))
@@ -902,7 +1132,7 @@ def run(tier, replay=None):
         allcases += cs
     # the relabel pass as the OpenMP loop it is: rows in any order (the invariants at "done" hold for every schedule)
     for (ns, nf) in ([(3, 3)] if tier == "quick" else [(3, 3), (2, 5), (5, 2), (4, 3)]):
-        res = common.run_tlc("ConnPix", dense_cfg(ns, nf, emit=False, rowpar=True), workers=16, timeout=3000,
+        res = common.run_tlc("ConnPix", dense_cfg(ns, nf, emit=False, rowpar=True), workers=WORKERS, timeout=3000,
                              coverage=(tier != "quick" and ns * nf <= 9))
         chk.add_tlc("ConnPix %dx%d relabel rows in any order" % (ns, nf), res,
                     require_cover=(("RelabelRow",) if res.coverage else ()))
@@ -911,7 +1141,7 @@ def run(tier, replay=None):
         if res.states < 2 * 2 ** (ns * nf) * (ns * nf + 2 ** ns):
             raise common.MachineryError("ConnPix %dx%d ROWPAR: %d states: the row orders were not explored" % (ns, nf, res.states))
     for ((ns, nf), algs, zp) in sshapes:
-        res = common.run_tlc("SparseCP", sparse_cfg(ns, nf, algs=algs, zp=zp), workers=16, timeout=3000)
+        res = common.run_tlc("SparseCP", sparse_cfg(ns, nf, algs=algs, zp=zp), workers=WORKERS, timeout=3000)
         chk.add_tlc("SparseCP %dx%d%s" % (ns, nf, "" if zp == (0, 0) else " splat scratch for %dx%d" % (ns + zp[0], nf + zp[1])), res)
         if res.violated:
             handle_model_violation(chk, "SparseCP", res)
@@ -921,7 +1151,7 @@ def run(tier, replay=None):
         allcases += cs
     for ((ns, nf), targs, names, ncls) in fshapes:
         res = common.run_tlc("SparseCP", sparse_cfg(ns, nf, algs='{"frame"}', name="_frame", targs=targs, names=names),
-                             workers=16, timeout=3000, coverage=(tier != "quick" and ns * nf <= 6))
+                             workers=WORKERS, timeout=3000, coverage=(tier != "quick" and ns * nf <= 6))
         chk.add_tlc("SparseCP %dx%d sparse_connected_pixels arguments %s %s" % (ns, nf, targs, names), res,
                     require_cover=(("Wrap", "SpSkip", "SpWalk") if res.coverage else ()))
         if res.violated:
@@ -939,6 +1169,8 @@ def run(tier, replay=None):
     frac = 0.34 if tier == "quick" else 0.2          # ASan runs the kernels ~3x slower: a seeded subset
     # (the option classes - verbose != 0, the wrapper's argument classes - repeat the kernels' memory behaviour: a third of that)
     sel = [c for c in allcases if rng.random() < (frac / 3.0 if (c.get("verbose") or "targ" in c) else frac)]
+    behs = series_model_runs(chk, tier, mods)
+    sel += [b for b in behs if rng.random() < frac]
     replay_asan(chk, sel, "small")
 
     sparsescan_routes(chk, tier)
@@ -954,12 +1186,12 @@ def run(tier, replay=None):
 
     if tier == "thorough":
         # the splat defect (F14) as TLC sees it in the model of the pinned code: Defined must fail
-        r = common.run_tlc("SparseCP", sparse_cfg(2, 3, algs='{"splat"}', bug=True, emit=False, name="_bug"), workers=16, timeout=600)
+        r = common.run_tlc("SparseCP", sparse_cfg(2, 3, algs='{"splat"}', bug=True, emit=False, name="_bug"), workers=WORKERS, timeout=600)
         chk.add_tlc("SparseCP BUG_SPLAT (expected: Defined violated)", r)
         if not r.violated:
             raise common.MachineryError("BUG_SPLAT configuration no longer violates Defined (vacuity)")
         # a wrapper that tests `not threshold`: WrapOK must fail
-        r = common.run_tlc("SparseCP", sparse_cfg(2, 2, algs='{"frame"}', emit=False, name="_falsy", falsy=True), workers=16, timeout=600)
+        r = common.run_tlc("SparseCP", sparse_cfg(2, 2, algs='{"frame"}', emit=False, name="_falsy", falsy=True), workers=WORKERS, timeout=600)
         chk.add_tlc("SparseCP WRAP_FALSY (expected: WrapOK violated)", r)
         if r.violated != ["WrapOK"]:
             raise common.MachineryError("WRAP_FALSY configuration violates %r, expected WrapOK (vacuity)" % (r.violated,))
